@@ -259,6 +259,13 @@ func Exec(t *testing.T, sp Spec, engine Engine) *Result {
 		}()
 		cryptotest.SetGlobalRandom(t, seed)
 		mathrand.Seed(int64(seed))
+		// the host's time zone is part of the environment: each run gets one derived from its seed (process-global, runs
+		// are sequential), so that code which confuses local calendar fields with UTC does not hide behind a UTC container
+		oldLocal := time.Local
+		zones := []int{0, 0, -11 * 3600, -8 * 3600, -5 * 3600, 3600, 5*3600 + 1800, 9 * 3600, 13 * 3600, 14 * 3600}
+		off := zones[int(seed%uint64(len(zones)))]
+		time.Local = time.FixedZone(fmt.Sprintf("sim%+d", off/60), off)
+		defer func() { time.Local = oldLocal }()
 		synctest.Test(t, func(t *testing.T) {
 			r := &Run{T: t, Prop: prop, Seed: seed, Index: sp.Index, Tape: tape, Known: known, Start: time.Now(), res: res, noTr: !withTrace, Scale: scale}
 			r.Sched = newSched(r)
